@@ -130,7 +130,7 @@ impl CodeCache {
     while !block_ended {
       // A translation never continues into the end of its ROM region: what
       // follows depends on the bank mapped there when it is reached.
-      if index != ip && !crate::mem::can_dynarec(index) {
+      if crate::mem::rom_block_must_end(ip, index) {
         break;
       }
       let code_slice = self.get_executable_memory_segment(index, mem);
